@@ -11,6 +11,7 @@ pub mod c12;
 pub mod c13;
 pub mod c14;
 pub mod c19;
+pub mod c20;
 pub mod mergefam;
 
 pub fn all() -> Vec<Box<dyn Property>> {
@@ -22,6 +23,7 @@ pub fn all() -> Vec<Box<dyn Property>> {
         Box::new(c13::prop()),
         Box::new(c14::prop()),
         Box::new(c19::prop()),
+        Box::new(c20::prop()),
     ]
 }
 
